@@ -1329,7 +1329,8 @@ public:
               if (assignCost(i, j) - v[j] < min)
                 min = assignCost(i, j) - v[j];
           }
-          v[j1] = v[j1] - min;
+          if (dim > 1)
+            v[j1] = v[j1] - min;
         }
       }
     }
